@@ -552,3 +552,79 @@ def _rebuild(op, d, operand_groups, override=None):
         op.operands = saved_operands
         inner_undo()
     return undo2
+
+
+
+# --------------------------------------------------------------------------- fixed additions to the universe
+def dense_negative(op):
+    """Set one element of a signless-integer dense-array property of a declarative-format op to -1 (e.g. the poison
+    lane of a shuffle mask) if the op still verifies. Deterministic: first eligible property, middle element."""
+    from xdsl.dialects import builtin as b
+    if not is_declarative(op):
+        return None
+    for which, cont in (("p", op.properties), ("a", op.attributes)):
+        for k, v in list(cont.items()):
+            if k in SEGMENT_NAMES or "segment" in k.lower() or not isinstance(v, b.DenseArrayBase):
+                continue
+            et = v.elt_type
+            if not isinstance(et, b.IntegerType) or et.signedness.data != b.Signedness.SIGNLESS or et.width.data < 8:
+                continue
+            vals = [int(x) for x in v.get_values()]
+            if not vals or any(x < 0 for x in vals):
+                continue
+            vals[len(vals) // 2] = -1
+            undo = _dict_mut(op, which, k, b.DenseArrayBase.from_list(et, vals))
+            if op_verifies(op):
+                return Applied("dense_negative", op.name, k, undo)
+            undo()
+    return None
+
+
+def format_test_dialect():
+    """Harness-defined declarative-format ops for format features no registered op uses: optional groups with an
+    ELSE branch holding operand variables / a nested optional group / a property."""
+    from xdsl.dialects.builtin import IntegerAttr, i64
+    from xdsl.ir import Dialect
+    from xdsl.irdl import (AttrSizedOperandSegments, IRDLOperation, irdl_op_definition, opt_operand_def, opt_prop_def, prop_def,
+                           var_operand_def)
+
+    @irdl_op_definition
+    class EitherOp(IRDLOperation):
+        name = "xvfmt.either"
+        left = opt_operand_def()
+        right = var_operand_def()
+        irdl_options = (AttrSizedOperandSegments(as_property=True),)
+        assembly_format = "(`left` $left^ `:` type($left)):(`right` $right `:` type($right))? attr-dict"
+
+    @irdl_op_definition
+    class SourceOp(IRDLOperation):
+        name = "xvfmt.source"
+        primary = opt_operand_def()
+        fallback = opt_operand_def()
+        weight = prop_def(IntegerAttr, default_value=IntegerAttr(1, i64))
+        irdl_options = (AttrSizedOperandSegments(as_property=True),)
+        assembly_format = ("(`from` $primary^ `:` type($primary)):(`fallback` ($fallback^ `:` type($fallback))?)?"
+                           " (`weight` $weight^)? attr-dict")
+
+    @irdl_op_definition
+    class TagOp(IRDLOperation):
+        name = "xvfmt.tag"
+        val = opt_operand_def()
+        tag = opt_prop_def(IntegerAttr)
+        assembly_format = "(`val` $val^ `:` type($val)):(`tag` $tag)? attr-dict"
+
+    return Dialect("xvfmt", [EitherOp, SourceOp, TagOp]), EitherOp, SourceOp, TagOp
+
+
+def format_test_module():
+    from xdsl.dialects import test
+    from xdsl.dialects.builtin import IntegerAttr, ModuleOp, i32, i64
+    dialect, EitherOp, SourceOp, TagOp = format_test_dialect()
+    prod = test.TestOp(result_types=[i32, i64, i32])
+    a, b_, c = prod.results
+    ops = [prod,
+           EitherOp.build(operands=[None, [a, b_]]), EitherOp.build(operands=[None, []]), EitherOp.build(operands=[c, []]),
+           SourceOp.build(operands=[None, c]), SourceOp.build(operands=[None, None], properties={"weight": IntegerAttr(3, i64)}),
+           SourceOp.build(operands=[a, None]), SourceOp.build(operands=[b_, None], properties={"weight": IntegerAttr(7, i64)}),
+           TagOp.build(operands=[a]), TagOp.build(operands=[None], properties={"tag": IntegerAttr(5, i64)})]
+    return dialect, ModuleOp(ops)
